@@ -304,6 +304,8 @@ class ModuleEnv:
             key = f'{base.py[1]}.{name}'
         elif isinstance(base, VRec):
             key = f'{base.name}.{name}'
+        if key is not None:
+            key = eng.c.get('call_alias', {}).get(key, key)      # the caller names which proved contract of the callee it relies on
         local = eng.c.get('calls', {})
         src = ast.unparse(node.func)
         if src in local:      # a call model stated in the contract under verification takes precedence over registry contracts
